@@ -102,7 +102,7 @@ CRATES["tdd"] = {}
 TB = "one recursion step from an arbitrary well-formed TDD: <=3 pre-existing ternary nodes, 6 slots, 2 levels (9 three-valued assignments), capacity symbolic"
 for op in ["and", "or", "nand", "nor", "xor", "equiv", "imp", "imp_strict", "not", "ite"]:
     add("tdd", "proofs::step_" + op, ["C11", "C01", "C03", "C05", "C06", "C14"], timeout=2400, mem_reserve=(14 if op == "ite" else 6), mem_gb=(18 if op == "ite" else 12),
-        tier="quick" if op in ("and", "or", "imp", "equiv", "xor", "not", "ite") else "thorough",
+        tier="quick" if op in ("and", "or", "imp", "equiv", "xor", "not") else "thorough",
         bounds=TB.replace("<=3 pre-existing", "<=2 pre-existing") if op not in ("not",) else TB)
     if op not in ("not", "ite"):
         add("tdd", "proofs::step_" + op + "_n3", ["C11", "C01", "C03", "C05", "C06", "C14"], tier="thorough", timeout=3000, mem_reserve=8, bounds=TB)
@@ -113,7 +113,20 @@ CRATES["hashtbl"] = {}
 HB = "one operation on an arbitrary 16-slot RawTable<u8,u32> satisfying the representation invariant; key universe 4 keys with arbitrary 64-bit hashes (all collision patterns, wrap-around clusters, any tombstone layout)"
 for hn in ["step_find_get", "step_insert_free5", "step_insert_free12", "step_remove"]:
     add("hashtbl", "proofs::" + hn, ["C17"], profile="full", timeout=2400, bounds=HB)
+for n in [0, 1]:
+    add("hashtbl", "proofs::step_insert_rehash_len%d" % n, ["C17"], profile="full", timeout=2400, mem_reserve=6,
+        bounds=HB + "; insertion at the rehash boundary: free counter = slots/4 (concrete), %d live element(s), all other slots tombstones/FREE: reserve(1) must rehash (real reserve_rehash) before a FREE slot is consumed" % n)
 add("hashtbl", "proofs::step_retain", ["XRETAIN"], profile="full", timeout=3000, mem_reserve=10, mem_gb=14, bounds=HB + "; retain with an arbitrary predicate incl. the shrink/rehash path")
+
+# ---------------------------------------------------------------- C15 DDDMP kernels
+CRATES["dddmp"] = {"kani_args": ["-Z", "stubbing"]}
+add("dddmp", "proofs::codec_roundtrip", ["C15"], profile="full", timeout=1800, mem_reserve=6,
+    bounds="every usize: real encode_7bit + write_escaped into a buffer, real decode_7bit + read_unescape back")
+add("dddmp", "proofs::decode_any_12", ["C15"], profile="full", timeout=2400, mem_reserve=6,
+    bounds="real decode_7bit on every byte string of length <= 12 without escape bytes (covers truncation, over-long integers)")
+add("dddmp", "proofs::unescape_any", ["C15"], profile="full", timeout=600, bounds="real read_unescape on every byte string of length <= 2")
+add("dddmp", "proofs::sanitise_len1", ["C15"], profile="full", timeout=900, bounds="real replace_space_and_control on every 1-character ASCII name")
+add("dddmp", "proofs::sanitise_len2", ["C15"], tier="thorough", profile="full", timeout=3600, mem_gb=16, mem_reserve=14, bounds="real replace_space_and_control on every 2-character ASCII name")
 
 # ---------------------------------------------------------------- C06 DMApplyCache
 for cap in [1, 2, 4]:
@@ -250,19 +263,27 @@ PROPS = {
         "outside": "pick_cube_uniform (random number generator, statistical bias is not a solver property)",
         "assumptions": ["cube_spec_ok (semantic walk on truth tables) is the documented behaviour"],
     },
+    "C15": {
+        "level": "other",
+        "claim": "Kernels only: (a) the escaped 7-bit integer codec of the binary DDDMP mode round-trips every usize through the real writer and reader, consuming exactly the written bytes; (b) the real reader on every byte string of <=12 bytes returns the denoted integer or an error (truncation, over-long integers), never a silently wrapped value, never a panic; (c) the escape layer accepts exactly the four documented escapes; (d) the name sanitiser replaces exactly spaces and ASCII control characters by '_' and reports a replacement iff one happened. The export/import round trip on diagrams, the header parser and the ASCII node section are NOT decided (line-oriented String/Vec/FxHashMap code with symbolic allocation sizes is out of reach of the back end).",
+        "bounds": "every usize (codec); byte strings <= 12 bytes (decoder), <= 2 bytes (escape layer); ASCII names of 1 char (quick), 2 chars (thorough)",
+        "outside": "export_common / import_ascii / import_bin / DumpHeader::load on diagrams, non-ASCII names, the ASCII list parsers (format!/from_utf8_lossy error paths exhausted 21 GB)",
+        "note": "trusted: Kani/CBMC; hook feature verif-hooks of oxidd-dump re-exports the private kernels unchanged; alloc::fmt::format stubbed by an empty body (error messages are not the subject)",
+        "explanation": "Solver-decided correctness of the byte-level kernels the round trip rests on; found and fixed two defects (spaces not sanitised; over-long integers silently wrapped).",
+        "assumptions": ["alloc::fmt::format stubbed (returns an empty String)", "names restricted to ASCII"],
+    },
     "C17": {
-        "claim": "One-step induction, decided by SAT over the real RawTable<u8,u32>: from an arbitrary 16-slot table satisfying the representation invariant (any tombstone layout, any collision pattern incl. wrap-around, hash = arbitrary 64-bit function of 4 keys), find/get, insertion (without rehash) and removal preserve the invariant, terminate, and change membership exactly as a set.",
-        "bounds": "16 slots (MIN_CAP), key universe of 4 keys, arbitrary hashes; free counter concrete in {5, 12} for insertion", "note": "trusted: Kani/CBMC; hook feature verif-hooks of linear-hashtbl (constructor/observers for the raw representation); the invariant stated in harness/hashtbl/src/proofs.rs",
-        "outside": "reserve_rehash (growth/shrink), retain, drain, clear, clone, iteration; tables larger than 16 slots",
+        "claim": "One-step induction, decided by SAT over the real RawTable<u8,u32>: from an arbitrary 16-slot table satisfying the representation invariant (any tombstone layout, any collision pattern incl. wrap-around, hash = arbitrary 64-bit function of 4 keys), find/get, insertion (without rehash, and through the real reserve_rehash at the rehash boundary with <=1 live element) and removal preserve the invariant (incl. free >= 25 %), terminate, and change membership exactly as a set.",
+        "bounds": "16 slots (MIN_CAP), key universe of 4 keys, arbitrary hashes; free counter concrete in {5, 12} for insertion without rehash, = 4 with 0 or 1 live elements for insertion with rehash", "note": "trusted: Kani/CBMC; hook feature verif-hooks of linear-hashtbl (constructor/observers for the raw representation); the invariant stated in harness/hashtbl/src/proofs.rs",
+        "outside": "reserve_rehash with more than one live element or a capacity change (growth/shrink), retain, drain, clear, clone, iteration; tables larger than 16 slots",
         "assumptions": ["callers never insert duplicates (contract of insert_in_slot_unchecked)"],
     },
 }
 
-HOOK_COMMITS = []
+HOOK_COMMITS = ["99a16a6", "bfce692", "73bba66"]
 
 NOT_APPLICABLE = {
     "C07": "Kani/CBMC (the only engine of this technique that reaches Rust) has no threads and the real managers (rayon pool, GC thread, parking_lot locks) cannot be constructed symbolically; interleavings cannot be made solver variables for this code",
-    "C15": "the DDDMP importer/exporter is line-oriented text I/O (format!/parse/from_utf8, Vec<String>, FxHashMap) whose allocation sizes are symbolic; not encodable within reach (the byte-level kernels alone would not decide the round-trip property)",
     "C16": "VarNameMap is built on std HashMap<Unowned<str>, _>; hashbrown gives no verdict under CBMC, and with a linear-map hook the String/Box<str>/Vec machinery exhausted 10 GB already for operation sequences of length 2 (probe in DESIGN.md); the real managers' add_named_vars scope guard needs the concrete manager",
     "C18": "Circuit::simplify and the nom-based parsers run on FxHashMap/bumpalo/Vec2d and format!-built diagnostics; a hashbrown map alone gave no verdict in 10 min under Kani (DESIGN.md §0), so the code cannot be encoded within reach",
     "C19": "the C API is a cdylib over the concrete index manager (rayon pool + GC thread created at construction: unsupported by Kani); ownership balance is a property of that manager's atomics",
@@ -274,11 +295,19 @@ NOT_APPLICABLE = {
 # about (first entry of props) it runs in that property's quick tier; for the other
 # properties only a representative core set runs in the quick tier (all of them in thorough).
 CORE = {
-    "bdd": {"step_and", "step_xor", "step_not", "step_ite", "step_exists", "step_apply_exists_and", "step_apply_exists_and_deleg", "step_apply_exists_xor_deleg", "base_pick_cube_dd", "base_var_eval", "probe_child0_by_ref", "lemma_canonical"},
-    "bcdd": {"step_and", "step_xor", "step_ite", "step_forall", "step_apply_exists_and_deleg", "base_pick_cube_dd_set", "base_var_eval", "probe_child0_by_ref", "lemma_canonical"},
-    "zbdd": {"step_union", "step_diff", "step_subset1", "step_not", "probe_child0_by_ref", "lemma_canonical"},
-    "mtbdd": {"step_add", "step_min", "base_constant_var", "probe_child0_by_ref"},
-    "tdd": {"step_and", "step_ite", "probe_child0_by_ref"},
+    "bdd": {"step_and", "step_not", "step_exists", "base_var_eval", "probe_child0_by_ref", "lemma_canonical"},
+    "bcdd": {"step_and", "step_xor", "step_forall", "base_var_eval", "probe_child0_by_ref", "lemma_canonical"},
+    "zbdd": {"step_union", "step_diff", "step_subset1", "probe_child0_by_ref", "lemma_canonical"},
+    "mtbdd": {"base_constant_var", "probe_child0_by_ref"},
+    "tdd": {"step_and", "probe_child0_by_ref"},
+}
+# heavier harnesses that a non-primary property still wants in its quick tier
+QUICK_EXTRA = {
+    "C05": {"bdd/step_apply_exists_and_deleg", "mtbdd/step_add", "bdd/base_pick_cube_dd"},
+    "C14": {"bdd/step_apply_exists_and_deleg", "mtbdd/step_add", "bcdd/base_pick_cube_dd_set"},
+    "C06": {"bdd/step_apply_exists_and", "mtbdd/step_max", "zbdd/step_subset0"},
+    "C03": {"bcdd/step_ite", "zbdd/step_not"},
+    "C01": {"bdd/step_xor", "tdd/step_imp"},
 }
 
 
@@ -293,6 +322,7 @@ def select(pid, tier):
         if h["tier"] != "quick":
             continue
         short = h["name"].split("::")[-1]
-        if h["props"][0] == pid or h["crate"] not in CORE or short in CORE[h["crate"]]:
+        if (h["props"][0] == pid or h["crate"] not in CORE or short in CORE[h["crate"]]
+                or h["crate"] + "/" + short in QUICK_EXTRA.get(pid, ())):
             out.append(dict(h))
     return out
